@@ -75,6 +75,36 @@ func (d capDesc) src() string {
 			sb.WriteString(" (= n n)")
 		}
 		sb.WriteString(")")
+	case "cmpfan2":
+		sb.WriteString("(and")
+		for i := 0; i < d.A; i++ {
+			sb.WriteString(" (or")
+			for j := 0; j < d.B; j++ {
+				sb.WriteString(" (= n n)")
+			}
+			sb.WriteString(")")
+		}
+		sb.WriteString(")")
+	case "chainR3":
+		sb.WriteString("(+ n n ")
+		for i := 0; i < d.A; i++ {
+			sb.WriteString("(+ n ")
+		}
+		sb.WriteString("n")
+		sb.WriteString(strings.Repeat(")", d.A))
+		sb.WriteString(")")
+	case "fanchain":
+		sb.WriteString("(+")
+		for i := 0; i < d.A; i++ {
+			sb.WriteString(" n")
+		}
+		sb.WriteString(" ")
+		for i := 0; i < d.B; i++ {
+			sb.WriteString("(+ n ")
+		}
+		sb.WriteString("n")
+		sb.WriteString(strings.Repeat(")", d.B))
+		sb.WriteString(")")
 	case "ifchain":
 		sb.WriteString("(+ ")
 		for i := 0; i < d.A; i++ {
@@ -122,6 +152,18 @@ func famCap() {
 	}
 	for _, a := range small {
 		ds = append(ds, capDesc{"chainZ", "+", a, 0})
+		ds = append(ds, capDesc{"chainR3", "+", a, 0})
+	}
+	// even node counts at the limits (chainR3: 2a+4), many fast operators under events (cmpfan2),
+	// width and depth together (fanchain: stack need a+b+1)
+	for _, a := range []int{8188, 8189, 8190, 16380, 16381, 16382} {
+		ds = append(ds, capDesc{"chainR3", "+", a, 0})
+	}
+	for _, ab := range [][2]int{{2, 2}, {3, 127}, {42, 127}, {43, 127}, {42, 128}, {85, 127}, {86, 127}} {
+		ds = append(ds, capDesc{"cmpfan2", "and", ab[0], ab[1]})
+	}
+	for _, ab := range [][2]int{{3, 4}, {6, 1}, {7, 1}, {6, 9}, {14, 1}, {126, 16250}, {126, 16258}, {126, 16300}, {100, 8141}, {126, 8128}} {
+		ds = append(ds, capDesc{"fanchain", "+", ab[0], ab[1]})
 	}
 	for _, a := range []int{0, 1, 5, 7, 8, 9, 15, 16, 17, 4094, 4095, 4096, 8190, 8191, 8192} {
 		ds = append(ds, capDesc{"ifchain", "+", a, 0})
